@@ -29,6 +29,7 @@ func HC04BufferHistory() {
 	back := vr.Param("back", 6)
 	rtx := vr.Param("rtx", 0) != 0
 	withCSRC := vr.Param("csrc", 0) != 0
+	padForm := vr.Param("pad", 0) // 0 none, 1 header PaddingSize, 2 legacy padding inside the payload
 	var rtxSsrc uint32
 	var rtxPT uint8
 	if rtx {
@@ -66,6 +67,16 @@ func HC04BufferHistory() {
 		copy(s.b[:], pl)
 		s.hasCSRC = withCSRC
 		hdr := &rtp.Header{Version: 2, Marker: s.marker, PayloadType: s.pt, SequenceNumber: s.seq, Timestamp: s.ts, SSRC: s.ssrc}
+		switch padForm {
+		case 1:
+			hdr.Padding, hdr.PaddingSize = true, uint8(vr.NondetInt(1, 4))
+		case 2:
+			// legacy: the last payload byte is the padding length (1 here) and belongs to the padding
+			vr.Assume(s.n >= 1)
+			hdr.Padding = true
+			pl[s.n-1] = 1
+			s.b[s.n-1] = 1
+		}
 		if s.hasCSRC {
 			s.csrc = vr.NondetU32()
 			hdr.CSRC = []uint32{s.csrc}
@@ -107,10 +118,15 @@ func HC04BufferHistory() {
 	if rtx {
 		vr.Cover("rtx form")
 		vr.Assert(h.SSRC == rtxSsrc && h.PayloadType == rtxPT, "RTX SSRC and PT")
-		vr.Assert(len(pay) == s.n+2, "RTX payload = OSN + original")
+		wantN := s.n
+		if padForm == 2 {
+			wantN = s.n - 1 // legacy in-payload padding is stripped
+		}
+		vr.Assert(len(pay) == wantN+2, "RTX payload = OSN + original payload without padding")
+		vr.Assert(!h.Padding && h.PaddingSize == 0, "RTX form carries no padding")
 		vr.Assert(pay[0] == uint8(s.seq>>8) && pay[1] == uint8(s.seq), "OSN prefix big endian")
 		for i := 0; i < 3; i++ {
-			if i < s.n {
+			if i < wantN {
 				vr.Assert(pay[2+i] == s.b[i], "RTX payload bytes")
 			}
 		}
